@@ -265,6 +265,7 @@ def run(ctx):
         ctx.ob("R4", "parse receiver", ok_recv, "parse is invoked on self.doc", where=do_edit.loc(pc.line))
         # result stored into self.inner
         stored = False
+        store_blocks = set()
         for bi in do_edit.reachable_from(pc.bb):
             for s in do_edit.blocks[bi]["s"]:
                 if s[0] == "A" and s[2][0] == "use":
@@ -276,6 +277,7 @@ def run(ctx):
                         src = deep_roots(prog, do_edit, s[2][1])
                         if any(r.kind == "call" and r.ref is pc for r in src):
                             stored = True
+                            store_blocks.add(bi)
         # the re-parse is unconditional: once perform_edit changed text and tree, no path reaches a return without parsing
         # (an edit "that cannot change the structure" — blanks for blanks — still can: ASI in JS, layout in Python)
         from ..query import path_avoiding
@@ -285,6 +287,15 @@ def run(ctx):
                "every path from perform_edit to a return passes Doc::parse" if pes and not skipping else
                "do_edit can return after perform_edit WITHOUT re-parsing: the edited document keeps the old tree's structure (shifted), which differs from a fresh parse wherever the edit changes tokenisation or layout", where=do_edit.loc(pc.line))
         ctx.ob("R4", "parse result stored", stored, "result of parse is assigned to self.inner" if stored else "result of parse is not stored into self.inner", where=do_edit.loc(pc.line))
+        # …and stored on EVERY path on which the parse succeeded: a test in between ("nothing changed according to changed_ranges, keep
+        # the old tree") keeps the shifted old tree, whose zero-width ghosts of deleted tokens a fresh parse does not have
+        if stored:
+            from ..query import option_arms as _oa
+            ok_side = _oa(do_edit, pc)["some"]
+            unconditional = bool(ok_side) and not any(path_avoiding(do_edit, b, store_blocks, list(do_edit.return_blocks())) for b in ok_side if b not in store_blocks)
+            ctx.ob("R4", "parse result stored on every path on which the parse succeeded", unconditional,
+                   "no return is reachable from the Ok side of Doc::parse without the store into self.inner" if unconditional else
+                   "do_edit can return Ok after a successful re-parse WITHOUT installing the new tree: the document keeps the edited old tree", where=do_edit.loc(pc.line))
 
 
 def byte_expr(prog, fn, operand, depth=0):
